@@ -358,10 +358,24 @@ func captureWrites(w *World, fns []*ssa.Function, extraSync func(ssa.CallInstruc
 				return
 			}
 			fv, ok := st.Addr.(*ssa.FreeVar)
+			viaObject := false
 			if !ok {
-				return
+				// a write through a captured pointer: the address derives (field / element chain) from a load
+				// of a captured variable whose declaring function only ever stores objects it allocated itself
+				// in it: that object is shared by every invocation of the literal.
+				fv = capturedObjectRoot(st.Addr)
+				if fv == nil {
+					return
+				}
+				viaObject = true
 			}
 			decl, chain, name := declaringFunc(fn, fv)
+			if viaObject {
+				if decl == nil || !cellHoldsOnlyOwnAllocs(decl, chain, fv) {
+					return
+				}
+				name = "object held by " + name
+			}
 			cw := captureWrite{lit: fn, store: st, varName: name, declIn: decl}
 			for _, c := range chain {
 				if esc, why := closureEscapes(c, extraSync); esc {
@@ -559,4 +573,96 @@ func rootRank(kind string) int {
 		return 1
 	}
 	return 0
+}
+
+// capturedObjectRoot: addr = FieldAddr/IndexAddr chain over *fv (a load of a captured variable).
+func capturedObjectRoot(addr ssa.Value) *ssa.FreeVar {
+	for depth := 0; depth < 8; depth++ {
+		switch a := addr.(type) {
+		case *ssa.FieldAddr:
+			addr = a.X
+		case *ssa.IndexAddr:
+			addr = a.X
+		case *ssa.UnOp:
+			if a.Op != token.MUL {
+				return nil
+			}
+			if fv, ok := a.X.(*ssa.FreeVar); ok {
+				if _, isPtr := deref(fv.Type()).Underlying().(*types.Pointer); isPtr {
+					return fv
+				}
+				return nil
+			}
+			addr = a.X
+		default:
+			return nil
+		}
+	}
+	return nil
+}
+
+// cellHoldsOnlyOwnAllocs: the captured variable's cell (an Alloc of the declaring function) is only
+// ever assigned composite literals / new(T) allocated by the declaring function itself.
+func cellHoldsOnlyOwnAllocs(decl *ssa.Function, chain []*ssa.Function, fv *ssa.FreeVar) bool {
+	// locate the cell: binding of the outermost literal in the chain
+	outer := chain[len(chain)-1]
+	var cv ssa.Value = fv
+	cur := chain[0]
+	for _, next := range chain[1:] {
+		idx := -1
+		for i, f := range cur.FreeVars {
+			if f == cv {
+				idx = i
+			}
+		}
+		if idx < 0 {
+			return false
+		}
+		var b ssa.Value
+		instrs(next, func(in ssa.Instruction) {
+			if mc, ok := in.(*ssa.MakeClosure); ok && mc.Fn == cur && b == nil {
+				b = mc.Bindings[idx]
+			}
+		})
+		cv, cur = b, next
+	}
+	idx := -1
+	for i, f := range outer.FreeVars {
+		if f == cv {
+			idx = i
+		}
+	}
+	if idx < 0 {
+		return false
+	}
+	var cell *ssa.Alloc
+	instrs(decl, func(in ssa.Instruction) {
+		if mc, ok := in.(*ssa.MakeClosure); ok && mc.Fn == outer && cell == nil {
+			cell, _ = mc.Bindings[idx].(*ssa.Alloc)
+		}
+	})
+	if cell == nil {
+		return false
+	}
+	n := 0
+	own := true
+	for _, f := range withAnons(decl) {
+		instrs(f, func(in ssa.Instruction) {
+			st, ok := in.(*ssa.Store)
+			if !ok {
+				return
+			}
+			if f == decl && st.Addr == ssa.Value(cell) {
+				n++
+				if al, ok := st.Val.(*ssa.Alloc); !ok || al.Parent() != decl {
+					own = false
+				}
+			} else if f != decl {
+				if r, ok := st.Addr.(*ssa.FreeVar); ok && r.Name() == cell.Comment {
+					own = false // reassigned inside a literal: not decided here
+				}
+			}
+		})
+	}
+	return n > 0 && own
 }
